@@ -23,15 +23,23 @@ import (
 
 type subH struct {
 	id     int
+	chans  []string
 	ch     chan rueidis.PubSubMessage
 	cancel func()
 	closes int
 	msgs   []string // since the last op
 	notes  []string // since the last op
+	// specification side (judged by the harness itself, independent of the Lean model)
+	live      bool // subscribed and not yet ended by an unsubscribe of one of ITS channels / its cancel / Close
+	gotN      int  // messages observed for the last op
+	closedNow bool // channel found closed after the last op
+	expN      int  // messages the last op must deliver
+	expClose  bool // the last op must end it
 }
 
 type tableH struct {
 	cnt  int
+	dead bool
 	subs []*subH
 }
 
@@ -46,12 +54,12 @@ func noteText(s rueidis.PubSubSubscription) string {
 func (t *tableH) drain() string {
 	var parts []string
 	for _, s := range t.subs {
-		closedNow := false
+		s.closedNow, s.gotN = false, 0
 		for s.ch != nil && s.closes == 0 {
 			select {
 			case m, ok := <-s.ch:
 				if !ok {
-					s.closes, closedNow = 1, true
+					s.closes, s.closedNow = 1, true
 				} else {
 					s.msgs = append(s.msgs, msgText(m))
 					continue
@@ -60,12 +68,50 @@ func (t *tableH) drain() string {
 			}
 			break
 		}
-		if len(s.msgs) > 0 || len(s.notes) > 0 || closedNow {
+		s.gotN = len(s.msgs)
+		if len(s.msgs) > 0 || len(s.notes) > 0 || s.closedNow {
 			parts = append(parts, fmt.Sprintf("%d:%s:%d:%s", s.id, strings.Join(s.msgs, "+"), s.closes, strings.Join(s.notes, "+")))
 		}
 		s.msgs, s.notes = nil, nil
 	}
 	return "{" + strings.Join(parts, " ") + "}"
+}
+
+// expectPublish / expectEnd state what the property demands of the next op on this table.
+func (t *tableH) expectPublish(ch string) {
+	for _, s := range t.subs {
+		if s.live && contains(s.chans, ch) {
+			s.expN = 1
+		}
+	}
+}
+func (t *tableH) expectEnd(pred func(*subH) bool) {
+	for _, s := range t.subs {
+		if s.live && pred(s) {
+			s.expClose = true
+		}
+	}
+}
+
+// judge compares what the op did with what the property demands, subscription by subscription.
+func (c *Ctx) judge(tabs *[3]tableH, op string) {
+	for k := range tabs {
+		for _, s := range tabs[k].subs {
+			what := fmt.Sprintf("table %d subscription %d %q", k, s.id, s.chans)
+			switch {
+			case s.gotN != s.expN:
+				c.Fail("pubsub:message-lost-or-misdelivered", op, fmt.Sprintf("%s received %d message(s), the property demands %d", what, s.gotN, s.expN))
+			case s.closedNow && !s.expClose:
+				c.Fail("pubsub:receive-ended-without-unsubscribe", op, what+" was ended by an operation on another subscription / channel")
+			case s.expClose && !s.closedNow && s.live:
+				c.Fail("pubsub:receive-not-ended-after-unsubscribe", op, what+" is still open although it was unsubscribed / cancelled / closed")
+			}
+			if s.expClose || s.closedNow {
+				s.live = false
+			}
+			s.expN, s.expClose = 0, false
+		}
+	}
 }
 
 var psKinds = [3][3]string{{"message", "subscribe", "unsubscribe"}, {"pmessage", "psubscribe", "punsubscribe"}, {"smessage", "ssubscribe", "sunsubscribe"}}
@@ -90,6 +136,95 @@ func (c *Ctx) subsDifferential() {
 			f()
 			return false
 		}
+		finish := func(op string, pk bool, nontrivial func(string) bool) {
+			ans := all()
+			if pk {
+				ans = "panic"
+				c.Fail("pubsub:panic", op, "the subscription table panicked")
+			}
+			c.Emit(op, ans, nontrivial(ans))
+			c.judge(&tabs, op)
+		}
+		hasColon := func(a string) bool { return strings.Contains(a, ":") }
+		always := func(string) bool { return true }
+		doSub := func(k int, chans []string, hasFn bool) {
+			t := &tabs[k]
+			t.cnt++
+			s := &subH{id: t.cnt, chans: chans}
+			var fn func(rueidis.PubSubSubscription)
+			if hasFn {
+				fn = func(n rueidis.PubSubSubscription) { s.notes = append(s.notes, noteText(n)) }
+			}
+			s.ch, s.cancel = p.Subs(k).Subscribe(chans, fn)
+			hs := make([]string, len(chans))
+			for j, ch := range chans {
+				hs[j] = dash(hx0(ch))
+			}
+			ans := "dead"
+			if s.ch != nil {
+				s.live = true
+				t.subs = append(t.subs, s)
+				ans = fmt.Sprintf("id=%d", s.id)
+			} else if !t.dead {
+				c.Fail("pubsub:subscribe-refused", "sub", "Subscribe returned no channel on a live table")
+			}
+			c.Emit(fmt.Sprintf("sub %d %s %s", k, b01(hasFn), strings.Join(hs, ",")), ans, false)
+		}
+		doPub := func(k int, ch string, i int) {
+			m := rueidis.PubSubMessage{Channel: ch, Message: fmt.Sprint("m", i)}
+			tabs[k].expectPublish(ch)
+			pk := guard(func() { p.Subs(k).Publish(ch, m) })
+			finish(fmt.Sprintf("pub %d %s %s", k, dash(hx0(ch)), msgText(m)), pk, hasColon)
+		}
+		doNote := func(k int, un bool, ch string, count int64) {
+			n := rueidis.PubSubSubscription{Kind: psKinds[k][1], Channel: ch, Count: count}
+			verb, f := "confirm", func() { p.Subs(k).Confirm(n) }
+			if un {
+				n.Kind = psKinds[k][2]
+				verb, f = "unsub", func() { p.Subs(k).Unsubscribe(n) }
+				tabs[k].expectEnd(func(s *subH) bool { return contains(s.chans, ch) })
+			}
+			pk := guard(f)
+			finish(fmt.Sprintf("%s %d %s %s %d", verb, k, hx0(n.Kind), dash(hx0(n.Channel)), n.Count), pk, hasColon)
+		}
+		doCancel := func(k int, s *subH) {
+			if !tabs[k].dead {
+				tabs[k].expectEnd(func(x *subH) bool { return x == s })
+			}
+			pk := guard(s.cancel)
+			finish(fmt.Sprintf("cancel %d %d", k, s.id), pk, always)
+		}
+		// directed prefix: an OLDER subscription ends while a newer one runs, then a NEW one starts
+		// (optionally sharing a channel with the survivor); then the survivor's channel is unsubscribed
+		directed := ep%3 == 0
+		if directed {
+			k := c.Rng.IntN(3)
+			doSub(k, []string{"a"}, c.Rng.IntN(2) == 0)
+			doSub(k, []string{"b"}, c.Rng.IntN(2) == 0)
+			if c.Rng.IntN(2) == 0 {
+				doCancel(k, tabs[k].subs[0])
+			} else {
+				doNote(k, true, "a", 1)
+			}
+			third := []string{"c"}
+			if c.Rng.IntN(2) == 0 {
+				third = []string{"c", "b"}
+			}
+			doSub(k, third, c.Rng.IntN(2) == 0)
+			doPub(k, "b", 100)
+			doPub(k, "c", 101)
+			switch c.Rng.IntN(3) {
+			case 0:
+				doNote(k, true, "b", 1)
+			case 1:
+				doCancel(k, tabs[k].subs[1])
+			default:
+				doCancel(k, tabs[k].subs[2])
+			}
+			doPub(k, "c", 102)
+			doPub(k, "b", 103)
+			c.Hit("directed:older-ends-then-new")
+		}
 		for i := 0; i < 25; i++ {
 			k := c.Rng.IntN(3)
 			t := &tabs[k]
@@ -100,64 +235,21 @@ func (c *Ctx) subsDifferential() {
 				for j := range chans {
 					chans[j] = c.chanName()
 				}
-				hasFn := c.Rng.IntN(2) == 0
-				t.cnt++
-				s := &subH{id: t.cnt}
-				var fn func(rueidis.PubSubSubscription)
-				if hasFn {
-					fn = func(n rueidis.PubSubSubscription) { s.notes = append(s.notes, noteText(n)) }
-				}
-				s.ch, s.cancel = p.Subs(k).Subscribe(chans, fn)
-				hs := make([]string, n)
-				for j, ch := range chans {
-					hs[j] = dash(hx0(ch))
-				}
-				ans := "dead"
-				if s.ch != nil {
-					t.subs = append(t.subs, s)
-					ans = fmt.Sprintf("id=%d", s.id)
-				}
-				c.Emit(fmt.Sprintf("sub %d %s %s", k, b01(hasFn), strings.Join(hs, ",")), ans, false)
+				doSub(k, chans, c.Rng.IntN(2) == 0)
 			case r < 8:
-				ch := c.chanName()
-				m := rueidis.PubSubMessage{Channel: ch, Message: fmt.Sprint("m", i)}
-				pk := guard(func() { p.Subs(k).Publish(ch, m) })
-				ans := all()
-				if pk {
-					ans = "panic"
-				}
-				c.Emit(fmt.Sprintf("pub %d %s %s", k, dash(hx0(ch)), msgText(m)), ans, strings.Contains(ans, ":"))
+				doPub(k, c.chanName(), i)
 			case r < 10:
-				n := rueidis.PubSubSubscription{Kind: psKinds[k][1+c.Rng.IntN(2)], Channel: c.chanName(), Count: int64(c.Rng.IntN(3))}
-				verb := "confirm"
-				f := func() { p.Subs(k).Confirm(n) }
-				if c.Rng.IntN(2) == 0 {
-					verb, f = "unsub", func() { p.Subs(k).Unsubscribe(n) }
-				}
-				pk := guard(f)
-				ans := all()
-				if pk {
-					ans = "panic"
-				}
-				c.Emit(fmt.Sprintf("%s %d %s %s %d", verb, k, hx0(n.Kind), dash(hx0(n.Channel)), n.Count), ans, strings.Contains(ans, ":"))
+				doNote(k, c.Rng.IntN(2) == 0, c.chanName(), int64(c.Rng.IntN(3)))
 			case r < 12:
 				if len(t.subs) == 0 {
 					continue
 				}
-				s := t.subs[c.Rng.IntN(len(t.subs))]
-				pk := guard(s.cancel)
-				ans := all()
-				if pk {
-					ans = "panic"
-				}
-				c.Emit(fmt.Sprintf("cancel %d %d", k, s.id), ans, true)
+				doCancel(k, t.subs[c.Rng.IntN(len(t.subs))])
 			case r < 13:
+				t.expectEnd(func(*subH) bool { return true })
+				t.dead = true
 				pk := guard(func() { p.Subs(k).Close() })
-				ans := all()
-				if pk {
-					ans = "panic"
-				}
-				c.Emit(fmt.Sprintf("close %d", k), ans, true)
+				finish(fmt.Sprintf("close %d", k), pk, always)
 			case r < 14:
 				om, os := c.Rng.IntN(2) == 0, c.Rng.IntN(2) == 0
 				h := rueidis.PubSubHooks{}
@@ -171,6 +263,32 @@ func (c *Ctx) subsDifferential() {
 				c.Emit(fmt.Sprintf("hooks %s %s", b01(om), b01(os)), "ok", false)
 			default:
 				vs := c.randPubSubPush()
+				// what the property demands of this push (string elements only count as names)
+				str := func(i int) string {
+					if i < len(vs) && vs[i].kind == 's' {
+						return vs[i].s
+					}
+					return ""
+				}
+				if len(vs) >= 2 && vs[0].kind == 's' {
+					for tk := 0; tk < 3; tk++ {
+						need := 3
+						if tk == 1 {
+							need = 4
+						}
+						switch vs[0].s {
+						case psKinds[tk][0]:
+							if len(vs) >= need {
+								tabs[tk].expectPublish(str(1))
+							}
+						case psKinds[tk][2]:
+							if len(vs) >= 3 {
+								ch := str(1)
+								tabs[tk].expectEnd(func(s *subH) bool { return contains(s.chans, ch) })
+							}
+						}
+					}
+				}
 				hookCalls = nil
 				var reply, unsub bool
 				pk := guard(func() { reply, unsub = p.HandlePush(pushMsgs(vs)) })
@@ -178,16 +296,19 @@ func (c *Ctx) subsDifferential() {
 				if len(hookCalls) > 0 {
 					hk = strings.Join(hookCalls, "+")
 				}
-				ans := fmt.Sprintf("r=%s u=%s hooks=%s %s", b01(reply), b01(unsub), hk, all())
-				if pk {
-					ans = "panic"
-				}
 				op := "push"
 				if len(vs) > 0 {
 					op += " " + pushWord(vs)
 				}
 				c.Hit("push:" + vs0(vs))
+				prefix := fmt.Sprintf("r=%s u=%s hooks=%s ", b01(reply), b01(unsub), hk)
+				ans := prefix + all()
+				if pk {
+					ans = "panic"
+					c.Fail("pubsub:panic", op, "handlePush panicked")
+				}
 				c.Emit(op, ans, strings.Contains(ans, ":") || hk != "-")
+				c.judge(&tabs, op)
 			}
 		}
 	}
@@ -273,7 +394,177 @@ type recvH struct {
 
 func globPrefix(p, s string) bool { return fakeredis.Glob(p, s) }
 
+// startRecv starts a Receive on client a and waits until the server confirmed all its channels.
+func startRecv(a rueidis.Client, kind int, chans []string) *recvH {
+	r := &recvH{k: kind, chans: chans, done: make(chan struct{})}
+	ctx, cancel := context.WithCancel(context.Background())
+	r.stop = cancel
+	ctx = rueidis.WithOnSubscriptionHook(ctx, func(s rueidis.PubSubSubscription) {
+		r.mu.Lock()
+		if strings.HasSuffix(s.Kind, "subscribe") && !strings.Contains(s.Kind, "un") {
+			r.conf++
+		}
+		r.mu.Unlock()
+	})
+	var cmd rueidis.Completed
+	switch kind {
+	case 0:
+		cmd = a.B().Subscribe().Channel(chans...).Build()
+	case 1:
+		cmd = a.B().Psubscribe().Pattern(chans...).Build()
+	default:
+		cmd = a.B().Ssubscribe().Channel(chans...).Build()
+	}
+	go func() {
+		r.err = a.Receive(ctx, cmd, func(m rueidis.PubSubMessage) {
+			r.mu.Lock()
+			r.got = append(r.got, m.Message)
+			r.mu.Unlock()
+		})
+		close(r.done)
+	}()
+	for dl := time.Now().Add(3 * time.Second); time.Now().Before(dl); time.Sleep(50 * time.Microsecond) {
+		r.mu.Lock()
+		ok := r.conf >= len(chans)
+		r.mu.Unlock()
+		if ok {
+			break
+		}
+	}
+	return r
+}
+
+func (r *recvH) payloads() string {
+	r.mu.Lock()
+	defer r.mu.Unlock()
+	return strings.Join(r.got, ",")
+}
+
+func (r *recvH) returned(wait time.Duration) bool {
+	select {
+	case <-r.done:
+		return true
+	case <-time.After(wait):
+		return false
+	}
+}
+
+// pubsubChurn: on one connection an OLDER Receive ends (context or unsubscribe) while a newer one of
+// the same kind is running, then a NEW Receive starts (optionally sharing a channel with the
+// survivor); then the survivor's own channel is unsubscribed. Each Receive must get exactly the
+// messages of its own channels published while it is subscribed, return iff ITS channels were
+// unsubscribed, and never be affected by another Receive ending.
+func (c *Ctx) pubsubChurn(kind int, endByCtx, share bool) {
+	bg := context.Background()
+	srv := fakeredis.New(fakeredis.Options{})
+	defer srv.Close()
+	mk := func(o rueidis.ClientOption) rueidis.Client {
+		o.InitAddress, o.DialCtxFn, o.ForceSingleClient, o.PipelineMultiplex, o.DisableRetry = []string{"fake:1"}, srv.Dial, true, -1, true
+		cl, err := rueidis.NewClient(o)
+		if err != nil {
+			panic(err)
+		}
+		return cl
+	}
+	a, b := mk(rueidis.ClientOption{}), mk(rueidis.ClientOption{DisableCache: true})
+	defer b.Close()
+	defer a.Close()
+	// names: for patterns the subscription name is "x1*" and messages go to "x1a"
+	name := func(x string) string {
+		if kind == 1 {
+			return x + "*"
+		}
+		return x
+	}
+	target := func(x string) string {
+		if kind == 1 {
+			return x + "a"
+		}
+		return x
+	}
+	pub := func(x, payload string) {
+		if kind == 2 {
+			b.Do(bg, b.B().Spublish().Channel(target(x)).Message(payload).Build())
+		} else {
+			b.Do(bg, b.B().Publish().Channel(target(x)).Message(payload).Build())
+		}
+	}
+	unsub := func(x string) {
+		switch kind {
+		case 0:
+			a.Do(bg, a.B().Unsubscribe().Channel(name(x)).Build())
+		case 1:
+			a.Do(bg, a.B().Punsubscribe().Pattern(name(x)).Build())
+		default:
+			a.Do(bg, a.B().Sunsubscribe().Channel(name(x)).Build())
+		}
+	}
+	barrier := func() { a.Do(bg, a.B().Ping().Build()); time.Sleep(300 * time.Microsecond) }
+	op := fmt.Sprintf("churn kind=%d endByCtx=%v share=%v", kind, endByCtx, share)
+	ra := startRecv(a, kind, []string{name("x1")})
+	rb := startRecv(a, kind, []string{name("x2")})
+	pub("x1", "p1")
+	pub("x2", "p2")
+	barrier()
+	if endByCtx {
+		ra.stop()
+	} else {
+		unsub("x1")
+	}
+	if !ra.returned(2 * time.Second) {
+		c.Fail("pubsub:receive-not-ended-after-unsubscribe", op, "the older Receive did not return after its context ended / its channel was unsubscribed")
+	}
+	cChans := []string{name("x3")}
+	if share {
+		cChans = []string{name("x3"), name("x2")}
+	}
+	rc := startRecv(a, kind, cChans)
+	pub("x2", "p3")
+	pub("x3", "p4")
+	barrier()
+	unsub("x2") // ends the survivor B (and C only if it shares x2)
+	if !rb.returned(2 * time.Second) {
+		c.Fail("pubsub:receive-not-ended-after-unsubscribe", op, "Receive B did not return after ITS channel was unsubscribed (an older Receive had ended and a new one had started meanwhile)")
+	} else if rb.err != nil {
+		c.Fail("pubsub:receive-not-ended-after-unsubscribe", op, fmt.Sprintf("Receive B returned %v instead of nil after its channel was unsubscribed", rb.err))
+	}
+	barrier()
+	if !share && rc.returned(20*time.Millisecond) {
+		c.Fail("pubsub:receive-ended-without-unsubscribe", op, fmt.Sprintf("the new Receive C returned %v although none of its channels was unsubscribed (B's channel was)", rc.err))
+	}
+	if share && !rc.returned(2*time.Second) {
+		c.Fail("pubsub:receive-not-ended-after-unsubscribe", op, "Receive C shares the unsubscribed channel with B but did not return")
+	}
+	pub("x3", "p5")
+	barrier()
+	wantA, wantB, wantC := "p1", "p2,p3", "p4,p5"
+	if share {
+		wantC = "p3,p4" // ended together with B by the unsubscribe of the shared channel
+	}
+	for dl := time.Now().Add(time.Second); time.Now().Before(dl) && rc.payloads() != wantC; time.Sleep(100 * time.Microsecond) {
+	}
+	for _, x := range []struct {
+		n    string
+		r    *recvH
+		want string
+	}{{"A", ra, wantA}, {"B", rb, wantB}, {"C", rc, wantC}} {
+		if got := x.r.payloads(); got != x.want {
+			c.Fail("pubsub:message-lost-or-misdelivered", op, fmt.Sprintf("Receive %s got [%s], the messages of its channels published while it was subscribed are [%s]", x.n, got, x.want))
+		}
+	}
+	c.Emit("!"+op, fmt.Sprintf("A=%s B=%s C=%s", ra.payloads(), rb.payloads(), rc.payloads()), true)
+	c.Hit("churn")
+	rc.stop()
+}
+
 func (c *Ctx) pubsubE2E() {
+	for kind := 0; kind < 3; kind++ {
+		for _, endByCtx := range []bool{true, false} {
+			for _, share := range []bool{false, true} {
+				c.pubsubChurn(kind, endByCtx, share)
+			}
+		}
+	}
 	bg := context.Background()
 	for ep := 0; ep < c.N; ep++ {
 		srv := fakeredis.New(fakeredis.Options{})
